@@ -57,6 +57,16 @@ def updateInside (line : List Char) (s : MLState) : MLState :=
       applyNesting s startM endM o c
     else if containsEnd line endM then .notIn else s
 
+/-- `MultiLineMatch::after_start`: what follows the matched start marker (the whole line for
+    quote-style blocks whose start and end are the same marker) -/
+def StartMatch.afterStart (m : StartMatch) (line : List Char) : List Char :=
+  if m.entry.start = m.endMarker then line
+  else
+    let startLen := match m.dynEnd with
+      | some e => if m.entry.kind = .luaLongBracket then e.length + 2 else m.entry.start.length
+      | none => m.entry.start.length
+    line.drop (m.pos + startLen)
+
 /-- what `process_line` and `track_multi_line_comment_state` do when a block start was found -/
 def enterFrom (line : List Char) (m : StartMatch) (s : MLState) : MLState :=
   let startM := m.entry.start
@@ -64,7 +74,7 @@ def enterFrom (line : List Char) (m : StartMatch) (s : MLState) : MLState :=
   if m.entry.nesting then
     let (o, c) := countMarkers line startM endM
     applyNesting s startM endM o c
-  else if !containsEnd line endM then s.enter startM endM false else s
+  else if !containsEnd (m.afterStart line) endM then s.enter startM endM false else s
 
 /-- `track_multi_line_comment_state` -/
 def trackState (syn : Syntax) (line : List Char) (s : MLState) : MLState :=
